@@ -12,7 +12,7 @@ use serde_json::{json, Value};
 pub struct P;
 pub static C13: P = P;
 
-pub const VARIANTS: [&str; 12] = [
+pub const VARIANTS: [&str; 14] = [
     "identity",
     "whitespace run -> \\n\\t space",
     "whitespace run -> two spaces",
@@ -25,10 +25,12 @@ pub const VARIANTS: [&str; 12] = [
     "newline + tab indentation between block tags",
     "CR LF, tab, form feed, space between block tags",
     "a single tab between block tags",
+    "each whitespace run wrapped in <span>",
+    "each <br> wrapped in <span>",
 ];
 /// Rewrites that split a text node into several (relevant for finding KF-C13-1).
 fn splits_text(v: usize) -> bool {
-    matches!(v, 3 | 4 | 6)
+    matches!(v, 3 | 4 | 6 | 12)
 }
 
 const BLOCKISH: &[&str] = &["p", "div", "ul", "ol", "li", "blockquote", "h3", "dl", "dt", "dd"];
@@ -66,6 +68,7 @@ pub fn ser_v(n: &N, out: &mut String, v: usize, inline_ctx: bool) {
                             3 => " <!-- c -->",
                             4 => "<!--c--> ",
                             8 => "\u{c}\r\n",
+                            12 => "<span> </span>",
                             _ => " ",
                         });
                     }
@@ -87,6 +90,10 @@ pub fn ser_v(n: &N, out: &mut String, v: usize, inline_ctx: bool) {
         N::E(tag, attrs, kids) => {
             let tg = tag.as_str();
             let blockish = BLOCKISH.contains(&tg);
+            if v == 13 && tg == "br" {
+                out.push_str("<span><br></span>");
+                return;
+            }
             out.push('<');
             out.push_str(tag);
             for (k, val) in attrs {
